@@ -83,7 +83,7 @@ namespace F3
 def exponent (f : F3) : Int := CC.Fmt.exponent f.value f.precision
 def mantissa (f : F3) : Int := fp_mantissa f.value f.exponent
 def isZero (f : F3) : Bool := fp_is_zero f.value f.exponent f.minExp
-def isInf (f : F3) : Bool := fp_is_inf f.exponent f.maxExp
+def isInf (f : F3) : Bool := fp_is_inf f.value f.exponent f.maxExp
 def exponent3 (f : F3) : Int := f3_exponent3 f.precision f.exponent
 def mantissa3 (f : F3) : Rat := f3_mantissa3 f.mantissa f.exponent f.exponent3
 end F3
